@@ -46,6 +46,7 @@ type c06case struct {
 	mode    string // seq | nw | conc | wit | wit0
 	seq     []int
 	perturb int // 0 none, 1 yields, 2 yields + micro-sleeps
+	sub     bool // the gateway, its catch events and the branch tasks sit inside an embedded sub-process
 }
 
 func c06seqs(k, maxLen int) [][]int {
@@ -92,6 +93,12 @@ func c06cases(tier string) []c06case {
 		}
 		cs = append(cs, c06case{k: k, mode: "wit0", seq: []int{0}})
 	}
+	// the same gateway inside an embedded sub-process (events reach it through the sub-process)
+	for _, s := range c06seqs(2, 2) {
+		// (sequential deliveries only: inner termination traces are not relayed to the instance's tracer, so which way a
+		// racing loser went cannot be read off the recorded history)
+		cs = append(cs, c06case{k: 2, mode: "seq", seq: s, sub: true})
+	}
 	if tier == "thorough" {
 		// seeded perturbation of every schedule point, for the racy delivery modes
 		for k := 2; k <= 3; k++ {
@@ -137,19 +144,32 @@ const (
 
 func c06run(out *rec.Out, c c06case, rng *rec.Rng, stats map[string]int) {
 	g := eng.NewGraph()
-	gw := g.Add("eventBasedGateway", "G", "")
-	st := g.Add("startEvent", "start", "")
-	en := g.Add("endEvent", "end", "")
+	par := ""
+	var subNode *eng.Node
+	if c.sub {
+		subNode = g.SubBegin("")
+		par = subNode.ID
+	}
+	gw := g.Add("eventBasedGateway", "G", par)
+	st := g.Add("startEvent", "start", par)
+	en := g.Add("endEvent", "end", par)
 	g.Connect(st, gw, nil)
 	for j := 0; j < c.k; j++ {
-		ce := g.Add("intermediateCatchEvent", fmt.Sprintf("C%d", j), "")
+		ce := g.Add("intermediateCatchEvent", fmt.Sprintf("C%d", j), par)
 		ce.Defs = []eng.EventDef{{Kind: c06kinds[j], Name: c06names[j]}}
-		t := g.Add("task", fmt.Sprintf("T%d", j), "")
+		t := g.Add("task", fmt.Sprintf("T%d", j), par)
 		g.Connect(gw, ce, nil)
 		g.Connect(ce, t, nil)
 		g.Connect(t, en, nil)
 	}
-	out.Begin("c06", c.k, c.mode, c06seqString(c.seq), c.perturb)
+	if c.sub {
+		ost := g.Add("startEvent", "ostart", "")
+		oen := g.Add("endEvent", "oend", "")
+		g.Connect(ost, subNode, nil)
+		g.Connect(subNode, oen, nil)
+		stats["gateway_inside_a_sub_process"]++
+	}
+	out.Begin("c06", c.k, c.mode, c06seqString(c.seq), c.perturb, rec.B(c.sub))
 	defer out.End()
 
 	var ctl *sched.Controller
